@@ -681,6 +681,7 @@ func execUpord(op Op) []string {
 	case <-done:
 		L.Close()
 	case <-hangAfter(120 * time.Second):
+		noteHang()
 		return []string{"X timeout => upord"}
 	}
 	return w.out
